@@ -310,11 +310,12 @@ class JSObject:
         return key in self._properties
 
     def delete(self, key: str) -> bool:
-        """Delete a property."""
-        if key in self._properties:
-            del self._properties[key]
-            return True
-        return False
+        """Delete an own property, data or accessor. Every property is configurable,
+        so this always succeeds, also when there is nothing to delete."""
+        self._properties.pop(key, None)
+        self._getters.pop(key, None)
+        self._setters.pop(key, None)
+        return True
 
     def keys(self) -> List[str]:
         """Get own enumerable property keys."""
